@@ -58,6 +58,9 @@ CALLS = [
     ('c-lit-e4m3', "bitstring.Bits('0b1, e4m3mxfp=1000.0')"), ('c-sp-e4m3', "bitstring.Bits(' e4m3mxfp = 1000.0')"), ('c-rep-e5m2', "bitstring.BitArray('2*(e5m2mxfp8=-1e6)')"),
     # an option-sensitive token nested inside the value of a bits token
     ('c-nested-e4m3', "bitstring.Bits('bits=e4m3mxfp=1e9')"), ('c-nested-e5m2', "bitstring.BitArray('bits:8=e5m2mxfp=1e9, 0b1')"),
+    # an Array built from an Array that an EARLIER call returned (R), or from an equal fresh one when there is none: after a flood of the Dtype
+    # caches the two Arrays no longer share a Dtype object
+    ('a-from-R', "AR(bitstring.Array('uint8', R if isinstance(globals().get('R'), bitstring.Array) and str(R.dtype) == 'uint8' and R.data.hex == '0a0b' else bitstring.Array('uint8', trailing_bits='0x0a0b')))"),
     ('a-trail2', "bitstring.Array('uint4', [1], trailing_bits='0b1')"), ('c-0a0b', "bitstring.Bits('0x0a0b')"), ('c-0b1', "bitstring.ConstBitStream('0b1')"),
 ]
 CALL_SRC = dict(CALLS)
@@ -66,9 +69,10 @@ MUTATIONS = ["R.append('0b1')", "R.invert()", "R.clear()", "R[0].invert()", "R.d
 
 FLOODS = {
     'str': "[bitstring.Bits('0x%04x' % i) for i in range({n})]",
-    'token': "[bitstring.pack('u%d' % (i + 8), 0) for i in range({n})]",
-    'dtype': "[bitstring.Dtype('u%d' % (i + 3)) for i in range({n})]",
-    'unpack': "[bitstring.Bits(600).unpack('u%d' % (i + 3)) for i in range({n})]",
+    # the fresh keys are chosen away from every key the call alphabet uses: touching a key would refresh it instead of evicting it
+    'token': "[bitstring.pack('u%d' % (i + 1000), 0) for i in range({n})]",
+    'dtype': "[bitstring.Dtype('u%d' % (i + 1000)) for i in range({n})]",
+    'unpack': "[bitstring.Bits(1300).unpack('u%d' % (i + 1000)) for i in range({n})]",
     'dtype-scale': "[bitstring.Dtype('u9', scale=i + 3) for i in range({n})]",
 }
 
